@@ -13,9 +13,15 @@
        all its members at once (so a member that cannot take N arguments raises, after the
        facts and before any definition answers), a member that returns (cut) or ends
        normally is followed by the next member;
-     - load_script_from_string: exec in a copy, then merge every key the script bound
-       (replace / chain after the old value); a script that cannot be compiled or raises
-       while it is exec'd leaves the engine as it was.
+     - load_script_from_string: exec in a copy, then merge every key of the copy whose value
+       differs (`!=`) from what the context holds (replace / chain after the old value);
+       a script that cannot be compiled or raises while it is exec'd leaves the engine as
+       it was; the merge itself cannot raise (chain_functions does not look at what it
+       chains), so a load either raises and changes nothing or returns and has merged
+       everything.  Scripts are Python: besides `def` they can bind a key to a constant
+       (not callable: a call that reaches it raises TypeError after the facts), to None
+       (an exact-arity key bound to None hides the variadic registration), delete a key
+       of the copy, fail half-way.
 
    A generator is a value of type  engine -> step : it is resumed under the engine as it is
    at that moment and either ends (Done) or yields an answer and the generator to resume
@@ -60,17 +66,37 @@ Inductive goal :=
 
 Record clause := mkClause { c_nlocals : nat; c_goals : list goal }.
 
-(* d_params: number of parameters of the Python function; None = def f( *args ) *)
-Record def := mkDef { d_params : option nat; d_clauses : list clause }.
+(* A Python object that a context key can be bound to / that can be a member of a chain.
+   d_const = None: a function object (d_params: number of its parameters, None = def f( *args );
+   every `def` / lambda creates a NEW one - a function is equal to itself only).
+   d_const = Some z: the constant number z (an int, a string, a list ..: NOT callable; two
+   constants are equal when their numbers are). *)
+Record def := mkObj { d_params : option nat; d_clauses : list clause; d_const : option N }.
 
+Definition mkDef (p : option nat) (cs : list clause) : def := mkObj p cs None.
+Definition mkConst (z : N) : def := mkObj None [] (Some z).
+
+(* can the object be called with n arguments?  (a constant: TypeError "not callable") *)
 Definition params_ok (n : nat) (d : def) : bool :=
-  match d_params d with None => true | Some m => Nat.eqb m n end.
+  match d_const d with
+  | Some _ => false
+  | None => match d_params d with None => true | Some m => Nat.eqb m n end
+  end.
 
 (* ------------------------------------------------------------------ engine state *)
 
 Definition fact := list str.
 Definition db := list ((str * nat) * list fact).
-Definition ctx := list (str * list def).
+
+(* the value a context key is bound to: None, an object (what `def`, an assignment or
+   register_function put there), or a closure made by chain_functions (its members, flattened:
+   a chain calls ALL its members when it is called, nested or not) *)
+Inductive cval := VNone | VObj (d : def) | VChain (ds : list def).
+
+Definition members (v : cval) : list def :=
+  match v with VNone => [] | VObj d => [d] | VChain ds => ds end.
+
+Definition ctx := list (str * cval).
 
 Record engine := mkEngine { e_db : db; e_ctx : ctx }.
 
@@ -88,20 +114,36 @@ Fixpoint db_set (m : db) (k : str * nat) (v : list fact) : db :=
   | (k', v') :: r => if dbkey_eqb k k' then (k', v) :: r else (k', v') :: db_set r k v
   end.
 
-Fixpoint ctx_get (c : ctx) (k : str) : option (list def) :=
+(* dictionaries as association lists (first match; assignment never duplicates a key) *)
+Fixpoint aget {A} (c : list (str * A)) (k : str) : option A :=
   match c with
   | [] => None
-  | (k', v) :: r => if str_eqb k k' then Some v else ctx_get r k
+  | (k', v) :: r => if str_eqb k k' then Some v else aget r k
   end.
 
 (* dict assignment: an existing key keeps its position, a new key goes to the end *)
-Fixpoint ctx_set (c : ctx) (k : str) (v : list def) : ctx :=
+Fixpoint aset {A} (c : list (str * A)) (k : str) (v : A) : list (str * A) :=
   match c with
   | [] => [(k, v)]
-  | (k', v') :: r => if str_eqb k k' then (k', v) :: r else (k', v') :: ctx_set r k v
+  | (k', v') :: r => if str_eqb k k' then (k', v) :: r else (k', v') :: aset r k v
   end.
 
-(* eval_context.get(f'{name}_{n}', eval_context.get(f'{name}_n')) *)
+(* del d[k] *)
+Fixpoint adel {A} (c : list (str * A)) (k : str) : list (str * A) :=
+  match c with
+  | [] => []
+  | (k', v') :: r => if str_eqb k k' then adel r k else (k', v') :: adel r k
+  end.
+
+Definition ctx_val (c : ctx) (k : str) : option cval := aget c k.
+Definition ctx_set (c : ctx) (k : str) (v : cval) : ctx := aset c k v.
+
+(* what a call finds under k: the objects it will call, in order (eval_context.get(k): a key
+   bound to None and an unbound key both give None there - but see resolve) *)
+Definition ctx_get (c : ctx) (k : str) : option (list def) := option_map members (ctx_val c k).
+
+(* eval_context.get(f'{name}_{n}', eval_context.get(f'{name}_n')): the default is used only
+   when the exact key is NOT BOUND; bound to None = nothing to call (Some []) *)
 Definition resolve (c : ctx) (name : str) (n : nat) : option (list def) :=
   match ctx_get c (mkkey name (AFix n)) with
   | Some ds => Some ds
@@ -294,40 +336,81 @@ Definition reg_arity (st : regstyle) (d : def) : arity :=
   end.
 
 Definition register (c : ctx) (name : str) (st : regstyle) (d : def) : ctx :=
-  ctx_set c (mkkey name (reg_arity st d)) [d].
+  ctx_set c (mkkey name (reg_arity st d)) (VObj d).
+
+(* register_function(name, <a constant>, arity=None): inspect.signature raises TypeError
+   before anything is assigned *)
+Definition register_raises (st : regstyle) (d : def) : bool :=
+  match st, d_const d with RInfer, Some _ => true | _, _ => false end.
 
 (* a script: what `exec` does with it, statement by statement *)
 Inductive stmt :=
-| SDef (key : str) (d : def)     (* def key(...): ... *)
-| SFail.                         (* a statement that raises *)
+| SDef (key : str) (d : def)     (* def key(...): ... / key = lambda ..: .. (d a function: a NEW object)
+                                    or key = <constant> (d = mkConst z) *)
+| SNone (key : str)              (* key = None *)
+| SDel (key : str)               (* del key        (NameError when key is not bound) *)
+| SSelf (key : str)              (* key = key      (NameError when key is not bound) *)
+| SFail.                         (* a statement that raises (1/0, import .., class .., ...) *)
 
 Record script := mkScript { s_broken : bool; s_stmts : list stmt }.   (* broken: compile() raises *)
 
+(* new_context = eval_context.copy(): what a key of the copy is bound to *)
+Inductive nval :=
+| NOld                           (* still the very object eval_context holds under this key *)
+| NNew (v : cval).               (* bound by the script *)
+
+Definition nctx := list (str * nval).
+
+Definition copy_ctx (c : ctx) : nctx := map (fun p => (fst p, NOld)) c.
+
 (* exec(code, new_context): None = raised *)
-Fixpoint exec_stmts (ss : list stmt) (nc : ctx) : option ctx :=
+Fixpoint exec_stmts (ss : list stmt) (nc : nctx) : option nctx :=
   match ss with
   | [] => Some nc
-  | SDef k d :: r => exec_stmts r (ctx_set nc k [d])
+  | SDef k d :: r => exec_stmts r (aset nc k (NNew (VObj d)))
+  | SNone k :: r => exec_stmts r (aset nc k (NNew VNone))
+  | SDel k :: r => match aget nc k with Some _ => exec_stmts r (adel nc k) | None => None end
+  | SSelf k :: r => match aget nc k with Some _ => exec_stmts r nc | None => None end
   | SFail :: _ => None
   end.
 
+(* the keys a script mentions *)
 Definition bound_keys (ss : list stmt) : list str :=
-  flat_map (fun st => match st with SDef k _ => [k] | SFail => [] end) ss.
+  flat_map (fun st => match st with SDef k _ | SNone k | SDel k | SSelf k => [k] | SFail => [] end) ss.
 
-(* for k, v in new_context.items(): if eval_context.get(k) != v: replace / chain.
-   A `def` always creates a new function object, so exactly the keys bound by the script
-   differ. *)
-Fixpoint merge (keys : list str) (nc : ctx) (overwrite : bool) (c : ctx) : ctx :=
+(* `eval_context.get(k) != v` is False: v (bound by the script) is None and k is unbound or
+   bound to None, or v is a constant and k is bound to that constant itself (not to a chain
+   around it).  A function made by the script differs from everything. *)
+Definition same_value (old : option cval) (v : cval) : bool :=
+  match v with
+  | VNone => match old with None | Some VNone => true | _ => false end
+  | VObj d =>
+      match d_const d, old with
+      | Some z, Some (VObj d') => match d_const d' with Some z' => N.eqb z z' | None => false end
+      | _, _ => false
+      end
+  | VChain _ => false
+  end.
+
+Definition old_members (c : ctx) (k : str) : list def :=
+  match ctx_get c k with Some l => l | None => [] end.
+
+(* one round of  for k, v in new_context.items(): if eval_context.get(k) != v: replace / chain.
+   chain_functions(old, v) = a closure over those of old, v that are not None; it does not
+   look at them - nothing in the merge can raise. *)
+Definition merge_key (nc : nctx) (overwrite : bool) (c : ctx) (k : str) : ctx :=
+  match aget nc k with
+  | Some (NNew v) =>
+      if same_value (ctx_val c k) v then c
+      else if overwrite then ctx_set c k v
+      else ctx_set c k (VChain (old_members c k ++ members v))
+  | _ => c
+  end.
+
+Fixpoint merge (keys : list str) (nc : nctx) (overwrite : bool) (c : ctx) : ctx :=
   match keys with
   | [] => c
-  | k :: r =>
-      let c' := match ctx_get nc k with
-                | None => c
-                | Some v =>
-                    if overwrite then ctx_set c k v
-                    else ctx_set c k (match ctx_get c k with Some old => old ++ v | None => v end)
-                end in
-      merge r nc overwrite c'
+  | k :: r => merge r nc overwrite (merge_key nc overwrite c k)
   end.
 
 Fixpoint dedup (ks : list str) : list str :=
@@ -336,11 +419,13 @@ Fixpoint dedup (ks : list str) : list str :=
   | k :: r => if existsb (str_eqb k) r then dedup r else k :: dedup r
   end.
 
+(* compile (raises: nothing happened), exec in a copy (raises: only the copy was touched),
+   merge of the copy's keys (cannot raise) *)
 Definition load (c : ctx) (sc : script) (overwrite : bool) : option ctx :=
   if s_broken sc then None
-  else match exec_stmts (s_stmts sc) c with
+  else match exec_stmts (s_stmts sc) (copy_ctx c) with
        | None => None
-       | Some nc => Some (merge (dedup (bound_keys (s_stmts sc))) nc overwrite c)
+       | Some nc => Some (merge (dedup (map fst nc)) nc overwrite c)
        end.
 
 Definition assert_fact (m : db) (name : str) (vals : fact) (app : bool) : db :=
